@@ -364,6 +364,61 @@ func c18Reject(cs *vrt.Case, r *vrt.Rng, cv elliptic.Curve) {
 		}
 		cs.Key("foreign", name, kinds[k], fmt.Sprint(cs.Idx))
 	}
+	// a session id that differs from this session's in ONE bit (each of the 64
+	// positions over the cases, a few per case): the message or state is this
+	// session's own, decoded, given the neighbouring id and encoded again - by
+	// its id it belongs to another session and the consuming round must refuse it
+	for t := 0; t < 6; t++ {
+		bit := uint((cs.Idx*6 + t) % 64)
+		if t >= 4 {
+			bit = 32 + uint(r.Intn(32))
+		}
+		k := []int{1, 2, 3, 4}[(cs.Idx+t)%4]
+		var enc []byte
+		var eerr error
+		switch k {
+		case 1:
+			m, err := sha2pc.DecodeRound2(cv, s1.r2b)
+			if err != nil {
+				continue
+			}
+			m.SessionID ^= 1 << bit
+			enc, eerr = sha2pc.EncodeRound2(cv, m)
+		case 2:
+			m, err := sha2pc.DecodeRound3(s1.r3b)
+			if err != nil {
+				continue
+			}
+			m.SessionID ^= 1 << bit
+			enc, eerr = sha2pc.EncodeRound3(m)
+		case 3:
+			g, err := sha2pc.DecodeGarblerSession(cv, s1.gsb)
+			if err != nil {
+				continue
+			}
+			g.SessionID ^= 1 << bit
+			enc, eerr = sha2pc.EncodeGarblerSession(cv, g)
+		case 4:
+			e, err := sha2pc.DecodeEvaluatorSession(cv, s1.esb)
+			if err != nil {
+				continue
+			}
+			e.SessionID ^= 1 << bit
+			enc, eerr = sha2pc.EncodeEvaluatorSession(cv, e)
+		}
+		if eerr != nil {
+			continue
+		}
+		out, pan := consume(k, enc, cv)
+		cs.Evals++
+		if pan != nil {
+			cs.Violate("C18|panic|"+pan.Frame, "neighbouring-session "+kinds[k]+" panicked: "+pan.Value, map[string]any{"stack": pan.Stack})
+		} else if !out.rejected {
+			cs.Violate("C18|foreign-session-accepted|"+kinds[k], fmt.Sprintf("%s whose session id differs from this session's in bit %d only was accepted by the consuming round", kinds[k], bit), map[string]any{"case": desc})
+		} else {
+			cs.Count("neighbouring_session_id_rejected", 1)
+		}
+	}
 	// other curve: decoders (and rounds) given another curve's objects
 	other := c18Curves[(cs.Idx/3+1+r.Intn(3))%4]
 	if other.Params().Name != name {
